@@ -13,7 +13,7 @@ pub fn run(out: &mut Out, seed: u64, tier: &str) {
     let mut rng = Rng::new(seed ^ 0x0707);
     let n_mols = if tier == "thorough" { 120 } else { 24 };
     let lib = library();
-    let (mut n_hist, mut n_req, mut n_ng, mut n_opt, mut n_sing) = (0usize, 0usize, 0usize, 0usize, 0usize);
+    let (mut n_hist, mut n_req, mut n_ng, mut n_opt, mut n_sing, mut n_near) = (0usize, 0usize, 0usize, 0usize, 0usize, 0usize);
     for r in 0..n_mols {
         let m = if r < 8 { lib[r].clone() } else { random_mol(&mut rng) };
         if m.min_distance() < 0.5 || m.n() > 10 || m.n() < 1 { continue; }
@@ -27,8 +27,16 @@ pub fn run(out: &mut Out, seed: u64, tier: &str) {
             let mut rec = Recorder::new(Inner::Real(ff));
             let len = 4 + rng.below(if tier == "thorough" { 36 } else { 12 });
             let before: Vec<u64> = mol.coordinates.iter().flat_map(|p| [p.x.to_bits(), p.y.to_bits(), p.z.to_bits()]).collect();
+            let mut prev: Option<Mol> = None;
             for _ in 0..len {
                 let mut g = distort(&m, rng.range(0.0, 0.3), &mut rng);
+                // a third of the requests are at the previous geometry exactly, or at it with one coordinate moved by 1e-9 ... 1e-13 A:
+                // an answer remembered "because nothing has moved" must not be served for a geometry that did move
+                if let Some(p) = &prev { match rng.below(9) {
+                    0 => { g = p.clone(); n_near += 1; }
+                    1 | 2 => { g = p.clone(); let a = rng.below(g.xs.len()); let c = rng.below(3); g.xs[a][c] += *rng.pick(&[1e-9, -3e-9, 2e-10, 1e-11, -1e-13]); n_near += 1; }
+                    _ => {}
+                } }
                 // now and then a singular geometry (all atoms at the origin as from_atomic_symbols leaves them, two atoms
                 // coincident, everything on a line): its non-finite answers must not leak into later requests
                 match rng.below(12) {
@@ -38,6 +46,7 @@ pub fn run(out: &mut Out, seed: u64, tier: &str) {
                     _ => {}
                 }
                 let x = g.points();
+                prev = Some(g.clone());
                 match rng.below(10) {
                     0..=3 => { rec.energy(&x); }
                     4..=7 => { rec.gradient(&x); }
@@ -90,5 +99,6 @@ pub fn run(out: &mut Out, seed: u64, tier: &str) {
     out.stat("numerical_gradient_calls", n_ng);
     out.stat("optimise_calls", n_opt);
     out.stat("requests_at_singular_geometries", n_sing);
+    out.stat("requests_at_or_within_1e-9_of_the_previous_geometry", n_near);
     out.sample("history on water/UFF: E,G,G,numerical-gradient,optimise(20),E,... each answer vs a fresh object");
 }
